@@ -99,6 +99,19 @@ def _enter(key, args):
             event("sig", f"argument declared i8 receives the non-integer {_num(v)!r} (truncated by the compiled code)")
         if t == "f8" and (isinstance(v, complex) or (hasattr(v, "re") and hasattr(v, "im"))):
             event("sig", "argument declared f8 receives a complex value")
+        if t == "f8[:]" and isinstance(v, np.ndarray) and v.dtype != object:
+            # the compiled definition exists for a writable, one-dimensional float64 array only
+            why = []
+            if v.dtype != np.float64:
+                why.append(f"dtype {v.dtype}")
+            if v.ndim != 1:
+                why.append(f"{v.ndim} dimensions")
+            if not v.flags.writeable:
+                why.append("read-only")
+            if why:
+                EVENTS.append(dict(kind="sig", module=key[0], func=key[1], detail=f"argument declared f8[:] receives an array that is {', '.join(why)}: no matching "
+                                   f"compiled definition (TypeError under the JIT, accepted by the interpreter)",
+                                   args=[_num(a) if not (a is v) else {"array": [x.item() for x in v.ravel()], "dtype": str(v.dtype), "readonly": not v.flags.writeable} for a in args]))
 
 
 def _exit():
@@ -270,7 +283,10 @@ f = getattr(mod, spec["func"])
 assert hasattr(f, "py_func"), "JIT is not enabled in the replay process"
 def conv(a):
     if isinstance(a, dict):
-        return np.array(a["array"], dtype=a["dtype"])
+        arr = np.array(a["array"], dtype=a["dtype"])
+        if a.get("readonly"):
+            arr.setflags(write=False)
+        return arr
     if isinstance(a, list):
         return np.array(a, dtype=float)
     return a
